@@ -78,7 +78,7 @@ func cloneInstr(in ssa.Instruction) ssa.Instruction {
 type canonStats struct {
 	functions, inlinedCalls, absorbed int
 	deadClosures, promoted, split     int
-	threaded                          int
+	threaded, unrolled                int
 	absorbedNames                     []string
 }
 
@@ -284,6 +284,10 @@ func deferRegisteredAt(d *ssa.Defer, r *ssa.RunDefers) bool {
 				return false
 			}
 		}
+	}
+	if secondPass {
+		delete(domCache, d.Parent())
+		return domSets(d.Parent())[r.Block()][d.Block()]
 	}
 	return d.Block().Dominates(r.Block())
 }
@@ -611,7 +615,36 @@ func (e *emitCtx) emit(f *ssa.Function, inlined bool, args, binds []ssa.Value, d
 var tupleMarker ssa.Value = &ssa.Const{}
 
 // canonicalise rewrites every module function in place; see the comment at the top of this file.
+// canonicalise runs the canonicalisation twice: unrolling, splitting and threading in the first pass expose calls whose callee
+// has become known (a closure taken out of a table), which the second pass inlines.
 func (c *Ctx) canonicalise(depth int) *canonStats {
+	st := c.canonicaliseOnce(depth)
+	first := c.origOf
+	secondPass = true
+	st2 := c.canonicaliseOnce(depth)
+	secondPass = false
+	for cl, src := range c.origOf {
+		if o, ok := first[src]; ok {
+			c.origOf[cl] = o
+		}
+	}
+	st.functions = st2.functions
+	st.inlinedCalls += st2.inlinedCalls
+	st.absorbed += st2.absorbed
+	st.absorbedNames = append(st.absorbedNames, st2.absorbedNames...)
+	sort.Strings(st.absorbedNames)
+	st.deadClosures += st2.deadClosures
+	st.promoted += st2.promoted
+	st.split += st2.split
+	st.threaded += st2.threaded
+	st.unrolled += st2.unrolled
+	return st
+}
+
+// secondPass: the blocks being inlined are canonical ones, whose dominator fields in go/ssa are stale.
+var secondPass bool
+
+func (c *Ctx) canonicaliseOnce(depth int) *canonStats {
 	il := &inliner{c: c, orig: map[*ssa.Function][]*ssa.BasicBlock{}, recover: map[*ssa.Function]*ssa.BasicBlock{},
 		origOf: map[ssa.Instruction]ssa.Instruction{}, maxDepth: depth, usedAsCall: map[*ssa.Function]int{}, wasInlined: map[*ssa.Function]bool{}, synthOf: map[ssa.Instruction]*ssa.Defer{}, samePkgOnly: map[*ssa.Function]bool{}}
 	for _, f := range c.ModFuncs {
@@ -650,7 +683,12 @@ func (c *Ctx) canonicalise(depth int) *canonStats {
 		}
 		st.deadClosures += dropDeadClosures(f)
 		for round := 0; round < 6; round++ {
-			ns := splitStructs(f)
+			nu := 0
+			if !noUnroll[shortPkg(fnPkgPath(f))] {
+				nu = unrollLiteralLoops(f)
+			}
+			st.unrolled += nu
+			ns := splitArrays(f) + splitStructs(f)
 			np := promoteLocals(f)
 			nt := 0
 			if !noThread[shortPkg(fnPkgPath(f))] {
@@ -659,7 +697,7 @@ func (c *Ctx) canonicalise(depth int) *canonStats {
 			st.split += ns
 			st.promoted += np
 			st.threaded += nt
-			if ns == 0 && np == 0 && nt == 0 {
+			if ns == 0 && np == 0 && nt == 0 && nu == 0 {
 				break
 			}
 		}
@@ -747,7 +785,7 @@ func isMethodOfInterfaceImpl(c *Ctx, f *ssa.Function) bool {
 }
 
 func describeCanon(st *canonStats) string {
-	return fmt.Sprintf("canonicalised %d functions: %d static calls of module helpers inlined, %d helpers absorbed (%s), %d unused closures dropped, %d local structs split, %d local cells promoted to registers, %d edges threaded past a decided test", st.functions, st.inlinedCalls, st.absorbed, strings.Join(st.absorbedNames, ", "), st.deadClosures, st.split, st.promoted, st.threaded)
+	return fmt.Sprintf("canonicalised %d functions: %d static calls of module helpers inlined, %d helpers absorbed (%s), %d unused closures dropped, %d local structs split, %d local cells promoted to registers, %d edges threaded past a decided test, %d constant-trip loops unrolled", st.functions, st.inlinedCalls, st.absorbed, strings.Join(st.absorbedNames, ", "), st.deadClosures, st.split, st.promoted, st.threaded, st.unrolled)
 }
 
 var _ = types.Typ
@@ -1372,6 +1410,9 @@ func splitStructs(f *ssa.Function) int {
 // noThread: packages whose rules are written against the source-level shape of the code.
 var noThread = map[string]bool{"token": true}
 
+// noUnroll: packages whose loops the rules look at as loops.
+var noUnroll = map[string]bool{"token": true, "lexer": true, "parser": true, "hash": true}
+
 func pruneUnreachable(f *ssa.Function) {
 	reach := map[*ssa.BasicBlock]bool{}
 	var walk func(b *ssa.BasicBlock)
@@ -1898,3 +1939,649 @@ func baseAllocOf(fa *ssa.FieldAddr) *ssa.Alloc {
 // canonOrigOf: clone -> original instruction, shared with the inliner so that copies made by later passes still resolve
 // their call-graph edges.
 var canonOrigOf map[ssa.Instruction]ssa.Instruction
+
+// ---- unrolling loops over literal tables ---------------------------------------------------------------------------------------------
+//
+// `for _, m := range []T{a, b, c} { … }` and a variadic helper inlined at a call with three arguments are loops whose trip count
+// is a constant. Unrolling them turns "the k-th element of a local table" into plain values, so that a table of (flag, action)
+// pairs analyses like the chain of `if flag { action }` it stands for, and `text("a", x, "b")` like three writes. A loop is
+// unrolled when it is innermost, counts an index from a constant in steps of one up to a constant bound (a constant, or the
+// length of a slice of a local array), runs at most 8 times and is small. The values that cross the loop's boundary are demoted
+// to cells first (promoteLocals rebuilds the registers), so the copies need no SSA repair.
+
+type natLoop struct {
+	header  *ssa.BasicBlock
+	body    map[*ssa.BasicBlock]bool
+	latches []*ssa.BasicBlock
+}
+
+func naturalLoops(f *ssa.Function) []*natLoop {
+	delete(domCache, f)
+	dom := domSets(f)
+	byHeader := map[*ssa.BasicBlock]*natLoop{}
+	var out []*natLoop
+	for _, u := range f.Blocks {
+		for _, h := range u.Succs {
+			if h != u && !dom[u][h] {
+				continue
+			}
+			l := byHeader[h]
+			if l == nil {
+				l = &natLoop{header: h, body: map[*ssa.BasicBlock]bool{h: true}}
+				byHeader[h] = l
+				out = append(out, l)
+			}
+			l.latches = append(l.latches, u)
+			work := []*ssa.BasicBlock{u}
+			for len(work) > 0 {
+				x := work[len(work)-1]
+				work = work[:len(work)-1]
+				if l.body[x] {
+					continue
+				}
+				l.body[x] = true
+				work = append(work, x.Preds...)
+			}
+		}
+	}
+	return out
+}
+
+func cellFor(f *ssa.Function, t types.Type, comment string, pos token.Pos) *ssa.Alloc {
+	entry := f.Blocks[0]
+	cell := &ssa.Alloc{Comment: comment}
+	setField(cell, "typ", types.NewPointer(t))
+	setField(cell, "pos", pos)
+	setField(cell, "block", entry)
+	entry.Instrs = append([]ssa.Instruction{cell}, entry.Instrs...)
+	f.Locals = append(f.Locals, cell)
+	return cell
+}
+
+func insertBeforeInstr(at *ssa.BasicBlock, before, in ssa.Instruction) {
+	setField(in, "block", at)
+	var out []ssa.Instruction
+	for _, x := range at.Instrs {
+		if x == before {
+			out = append(out, in)
+		}
+		out = append(out, x)
+	}
+	at.Instrs = out
+}
+
+func insertAfterInstr(at *ssa.BasicBlock, after, in ssa.Instruction) {
+	setField(in, "block", at)
+	var out []ssa.Instruction
+	for _, x := range at.Instrs {
+		out = append(out, x)
+		if x == after {
+			out = append(out, in)
+		}
+	}
+	at.Instrs = out
+}
+
+// demoteUses replaces every use of v selected by keep (nil = all) with a load of cell placed right before the use (for a phi
+// operand: at the end of the corresponding predecessor).
+func demoteUses(v ssa.Value, cell *ssa.Alloc, users []ssa.Instruction, sel func(u ssa.Instruction) bool) {
+	mk := func() *ssa.UnOp {
+		l := &ssa.UnOp{Op: token.MUL, X: cell}
+		setField(l, "typ", v.Type())
+		setField(l, "pos", v.Pos())
+		return l
+	}
+	for _, u := range users {
+		if sel != nil && !sel(u) {
+			continue
+		}
+		if up, isPhi := u.(*ssa.Phi); isPhi {
+			for m, e := range up.Edges {
+				if e == v && m < len(up.Block().Preds) {
+					pm := up.Block().Preds[m]
+					l := mk()
+					insertBeforeInstr(pm, lastInstr(pm), l)
+					up.Edges[m] = l
+				}
+			}
+			continue
+		}
+		l := mk()
+		insertBeforeInstr(u.Block(), u, l)
+		for _, op := range u.Operands(nil) {
+			if *op == v {
+				*op = l
+			}
+		}
+	}
+}
+
+func unrollLiteralLoops(f *ssa.Function) int {
+	total := 0
+	for round := 0; round < 6; round++ {
+		loops := naturalLoops(f)
+		users := usersOf(f)
+		done := false
+		for _, l := range loops {
+			h := l.header
+			iff, ok := lastInstr(h).(*ssa.If)
+			if !ok || len(h.Succs) != 2 {
+				continue
+			}
+			inner := false
+			for _, o := range loops {
+				if o != l && l.body[o.header] {
+					inner = true
+				}
+			}
+			if inner {
+				continue
+			}
+			var bodyEntry, exit *ssa.BasicBlock
+			switch {
+			case l.body[h.Succs[0]] && !l.body[h.Succs[1]]:
+				bodyEntry, exit = h.Succs[0], h.Succs[1]
+			default:
+				continue // (the exit on the true edge does not occur for counted loops)
+			}
+			// early exits: blocks outside the loop that are entered only from it (`if hit { return f(x) }`) belong to the iteration
+			// that reaches them and are copied with it
+			for grown := true; grown; {
+				grown = false
+				for _, b := range f.Blocks {
+					if l.body[b] || b == exit || b == f.Blocks[0] || len(b.Preds) == 0 {
+						continue
+					}
+					all := true
+					for _, p := range b.Preds {
+						if !l.body[p] {
+							all = false
+						}
+					}
+					if all && len(b.Instrs) <= 40 {
+						l.body[b] = true
+						grown = true
+					}
+				}
+			}
+			size := 0
+			for b := range l.body {
+				size += len(b.Instrs)
+			}
+			// the induction phi
+			var p *ssa.Phi
+			var inc *ssa.BinOp
+			c0 := int64(0)
+			var phis []*ssa.Phi
+			for _, in := range h.Instrs {
+				phi, isPhi := in.(*ssa.Phi)
+				if !isPhi {
+					break
+				}
+				phis = append(phis, phi)
+				if p != nil {
+					continue
+				}
+				var init *int64
+				var step *ssa.BinOp
+				good := true
+				for i, pred := range h.Preds {
+					if l.body[pred] {
+						bo, isB := phi.Edges[i].(*ssa.BinOp)
+						if !isB || bo.Op != token.ADD || bo.X != ssa.Value(phi) || (step != nil && step != bo) {
+							good = false
+							break
+						}
+						if k, isC := constInt(bo.Y); !isC || k != 1 {
+							good = false
+							break
+						}
+						step = bo
+					} else {
+						k, isC := constInt(phi.Edges[i])
+						if !isC || (init != nil && *init != k) {
+							good = false
+							break
+						}
+						init = &k
+					}
+				}
+				if good && init != nil && step != nil {
+					p, inc, c0 = phi, step, *init
+				}
+			}
+			if p == nil {
+				continue
+			}
+			// the bound
+			cond, isB := iff.Cond.(*ssa.BinOp)
+			if !isB || cond.Op != token.LSS || (cond.X != ssa.Value(p) && cond.X != ssa.Value(inc)) {
+				continue
+			}
+			bound := int64(-1)
+			if k, isC := constInt(cond.Y); isC {
+				bound = k
+			} else if call, isCall := cond.Y.(*ssa.Call); isCall {
+				if bi, isBI := call.Call.Value.(*ssa.Builtin); isBI && bi.Name() == "len" && len(call.Call.Args) == 1 {
+					if n, okN := literalLen(call.Call.Args[0]); okN {
+						bound = n
+					}
+				}
+			}
+			v0 := c0
+			if cond.X == ssa.Value(inc) {
+				v0 = c0 + 1
+			}
+			trips := bound - v0
+			if bound < 0 || v0 < 0 || trips < 1 || trips > 8 || int64(size)*trips > 600 {
+				continue
+			}
+			// the counter is not used outside the loop
+			outside := func(u ssa.Instruction) bool {
+				if up, isPhi := u.(*ssa.Phi); isPhi {
+					return !l.body[up.Block()]
+				}
+				return !l.body[u.Block()]
+			}
+			escapes := false
+			for _, v := range []ssa.Value{p, inc} {
+				for _, u := range users[v] {
+					if outside(u) {
+						escapes = true
+					}
+				}
+			}
+			if escapes {
+				continue
+			}
+			// demote: the other header phis, and every value of the loop that is used outside it
+			for _, phi := range phis {
+				if phi == p {
+					continue
+				}
+				cell := cellFor(f, phi.Type(), phi.Comment, phi.Pos())
+				for i, pred := range h.Preds {
+					st := &ssa.Store{Addr: cell, Val: phi.Edges[i]}
+					insertBeforeInstr(pred, lastInstr(pred), st)
+				}
+				demoteUses(phi, cell, users[phi], nil)
+			}
+			gone := map[ssa.Instruction]bool{}
+			for _, phi := range phis {
+				gone[phi] = true // (the counter's phi is replaced by constants in the copies)
+			}
+			for b := range l.body {
+				for _, in := range append([]ssa.Instruction(nil), b.Instrs...) {
+					v, isVal := in.(ssa.Value)
+					if !isVal || gone[in] {
+						continue
+					}
+					if _, isPhi := in.(*ssa.Phi); isPhi {
+						continue
+					}
+					esc := false
+					for _, u := range users[v] {
+						if outside(u) {
+							esc = true
+						}
+					}
+					if !esc {
+						continue
+					}
+					cell := cellFor(f, v.Type(), v.Name(), v.Pos())
+					st := &ssa.Store{Addr: cell, Val: v}
+					insertAfterInstr(b, in, st)
+					demoteUses(v, cell, users[v], outside)
+				}
+			}
+			removeInstrs(f, gone)
+			// copies
+			order := rpo([]*ssa.BasicBlock{h})
+			var loopBlocks []*ssa.BasicBlock
+			for _, b := range order {
+				if l.body[b] {
+					loopBlocks = append(loopBlocks, b)
+				}
+			}
+			// (rpo from the header may wander outside; restrict and keep the header first)
+			type copyT struct {
+				blk  map[*ssa.BasicBlock]*ssa.BasicBlock
+				vmap map[ssa.Value]ssa.Value
+			}
+			mkCopy := func(k int64, onlyHeader bool) copyT {
+				cp := copyT{map[*ssa.BasicBlock]*ssa.BasicBlock{}, map[ssa.Value]ssa.Value{}}
+				cp.vmap[p] = ssa.NewConst(constant.MakeInt64(c0+k), p.Type())
+				cp.vmap[inc] = ssa.NewConst(constant.MakeInt64(c0+k+1), inc.Type())
+				for _, b := range loopBlocks {
+					if onlyHeader && b != h {
+						continue
+					}
+					nb := &ssa.BasicBlock{Comment: fmt.Sprintf("%s#%d", b.Comment, k)}
+					setField(nb, "parent", f)
+					cp.blk[b] = nb
+				}
+				for _, b := range loopBlocks {
+					nb := cp.blk[b]
+					if nb == nil {
+						continue
+					}
+					for _, in := range b.Instrs {
+						if in == ssa.Instruction(inc) {
+							continue
+						}
+						if in == lastInstr(b) && b == h {
+							continue // the header's test is decided: see below
+						}
+						cl := cloneInstr(in)
+						setField(cl, "block", nb)
+						nb.Instrs = append(nb.Instrs, cl)
+						if v, isVal := in.(ssa.Value); isVal {
+							cp.vmap[v] = cl.(ssa.Value)
+						}
+						if orig, okO := canonOrigOf[in]; okO {
+							canonOrigOf[cl] = orig
+						} else {
+							canonOrigOf[cl] = in
+						}
+					}
+				}
+				for _, nb := range cp.blk {
+					for _, in := range nb.Instrs {
+						for _, op := range in.Operands(nil) {
+							if *op != nil {
+								if n, okM := cp.vmap[*op]; okM {
+									*op = n
+								}
+							}
+						}
+					}
+				}
+				return cp
+			}
+			var copies []copyT
+			for k := int64(0); k < trips; k++ {
+				copies = append(copies, mkCopy(k, false))
+			}
+			final := mkCopy(trips, true)
+			headerOf := func(k int) *ssa.BasicBlock {
+				if k < len(copies) {
+					return copies[k].blk[h]
+				}
+				return final.blk[h]
+			}
+			link := func(from, to *ssa.BasicBlock) {
+				from.Succs = append(from.Succs, to)
+				to.Preds = append(to.Preds, from)
+			}
+			// exits: for every edge u -> x leaving the loop, x gets the copies of u as predecessors (and phi operands)
+			type exitEdge struct {
+				u, x *ssa.BasicBlock
+			}
+			var exits []exitEdge
+			for _, b := range loopBlocks {
+				for _, s := range b.Succs {
+					if !l.body[s] {
+						exits = append(exits, exitEdge{b, s})
+					}
+				}
+			}
+			phiOperand := func(x, u *ssa.BasicBlock, phi *ssa.Phi, cp copyT) ssa.Value {
+				j := predIndex(x, u)
+				v := phi.Edges[j]
+				if n, okM := cp.vmap[v]; okM {
+					return n
+				}
+				return v
+			}
+			for k, cp := range copies {
+				for _, b := range loopBlocks {
+					nb := cp.blk[b]
+					if b == h {
+						j := &ssa.Jump{}
+						setField(j, "block", nb)
+						nb.Instrs = append(nb.Instrs, j)
+						link(nb, cp.blk[bodyEntry])
+						continue
+					}
+					for _, s := range b.Succs {
+						switch {
+						case s == h:
+							link(nb, headerOf(k+1))
+						case l.body[s]:
+							link(nb, cp.blk[s])
+						default:
+							for _, in := range s.Instrs {
+								if phi, isPhi := in.(*ssa.Phi); isPhi {
+									phi.Edges = append(phi.Edges, phiOperand(s, b, phi, cp))
+								}
+							}
+							link(nb, s)
+						}
+					}
+				}
+			}
+			{
+				nb := final.blk[h]
+				j := &ssa.Jump{}
+				setField(j, "block", nb)
+				nb.Instrs = append(nb.Instrs, j)
+				for _, in := range exit.Instrs {
+					if phi, isPhi := in.(*ssa.Phi); isPhi {
+						phi.Edges = append(phi.Edges, phiOperand(exit, h, phi, final))
+					}
+				}
+				link(nb, exit)
+			}
+			// remove the original edges into the exits
+			for _, e := range exits {
+				j := predIndex(e.x, e.u)
+				if j < 0 {
+					continue
+				}
+				e.x.Preds = append(e.x.Preds[:j:j], e.x.Preds[j+1:]...)
+				for _, in := range e.x.Instrs {
+					if phi, isPhi := in.(*ssa.Phi); isPhi && j < len(phi.Edges) {
+						phi.Edges = append(phi.Edges[:j:j], phi.Edges[j+1:]...)
+					}
+				}
+			}
+			// entry edges
+			for _, o := range append([]*ssa.BasicBlock(nil), h.Preds...) {
+				if l.body[o] {
+					continue
+				}
+				for k, s := range o.Succs {
+					if s == h {
+						o.Succs[k] = headerOf(0)
+						headerOf(0).Preds = append(headerOf(0).Preds, o)
+					}
+				}
+			}
+			var kept []*ssa.BasicBlock
+			for _, b := range f.Blocks {
+				if !l.body[b] {
+					kept = append(kept, b)
+				}
+			}
+			for _, cp := range copies {
+				for _, b := range loopBlocks {
+					kept = append(kept, cp.blk[b])
+				}
+			}
+			kept = append(kept, final.blk[h])
+			for i, b := range kept {
+				b.Index = i
+			}
+			f.Blocks = kept
+			total++
+			done = true
+			break
+		}
+		if !done {
+			break
+		}
+		pruneUnreachable(f)
+		promoteLocals(f)
+	}
+	return total
+}
+
+// literalLen: the length of a slice that is the whole of a local array (a slice / variadic literal).
+func literalLen(v ssa.Value) (int64, bool) {
+	sl, ok := v.(*ssa.Slice)
+	if !ok || sl.Low != nil || sl.High != nil || sl.Max != nil {
+		return 0, false
+	}
+	pt, ok := sl.X.Type().Underlying().(*types.Pointer)
+	if !ok {
+		return 0, false
+	}
+	arr, ok := pt.Elem().Underlying().(*types.Array)
+	if !ok {
+		return 0, false
+	}
+	if _, isAlloc := sl.X.(*ssa.Alloc); !isAlloc {
+		return 0, false
+	}
+	return arr.Len(), true
+}
+
+// splitArrays splits a local array that is only indexed with constants (directly or through a slice of the whole of it) into
+// one cell per element; len/cap of the slice become constants.
+func splitArrays(f *ssa.Function) int {
+	users := usersOf(f)
+	n := 0
+	repl := map[ssa.Value]ssa.Value{}
+	dead := map[ssa.Instruction]bool{}
+	for _, b := range f.Blocks {
+		for _, in := range append([]ssa.Instruction(nil), b.Instrs...) {
+			a, ok := in.(*ssa.Alloc)
+			if !ok {
+				continue
+			}
+			arr, ok := a.Type().Underlying().(*types.Pointer).Elem().Underlying().(*types.Array)
+			if !ok || arr.Len() == 0 || arr.Len() > 16 {
+				continue
+			}
+			good := true
+			var idx []*ssa.IndexAddr
+			var lens []*ssa.Call
+			var slices []*ssa.Slice
+			elemUseOK := func(ia *ssa.IndexAddr) bool {
+				if _, isC := constInt(ia.Index); !isC {
+					return false
+				}
+				for _, u := range users[ia] {
+					switch x := u.(type) {
+					case *ssa.Store:
+						if x.Addr != ssa.Value(ia) || x.Val == ssa.Value(ia) {
+							return false
+						}
+					case *ssa.UnOp:
+						if x.Op != token.MUL {
+							return false
+						}
+					case *ssa.FieldAddr:
+						if x.X != ssa.Value(ia) {
+							return false
+						}
+					case *ssa.DebugRef:
+					default:
+						return false
+					}
+				}
+				return true
+			}
+			for _, u := range users[a] {
+				switch x := u.(type) {
+				case *ssa.IndexAddr:
+					if x.X != ssa.Value(a) || !elemUseOK(x) {
+						good = false
+					}
+					idx = append(idx, x)
+				case *ssa.Slice:
+					if x.X != ssa.Value(a) || x.Low != nil || x.High != nil || x.Max != nil {
+						good = false
+						break
+					}
+					slices = append(slices, x)
+					for _, su := range users[x] {
+						switch y := su.(type) {
+						case *ssa.IndexAddr:
+							if y.X != ssa.Value(x) || !elemUseOK(y) {
+								good = false
+							}
+							idx = append(idx, y)
+						case *ssa.Call:
+							bi, isBI := y.Call.Value.(*ssa.Builtin)
+							if !isBI || (bi.Name() != "len" && bi.Name() != "cap") {
+								good = false
+							}
+							lens = append(lens, y)
+						case *ssa.DebugRef:
+						default:
+							good = false
+						}
+					}
+				case *ssa.DebugRef:
+				default:
+					good = false
+				}
+			}
+			if !good || len(idx) == 0 {
+				continue
+			}
+			cells := make([]*ssa.Alloc, arr.Len())
+			for i := range cells {
+				c := &ssa.Alloc{Comment: fmt.Sprintf("%s[%d]", a.Comment, i), Heap: a.Heap}
+				setField(c, "typ", types.NewPointer(arr.Elem()))
+				setField(c, "pos", a.Pos())
+				insertBeforeInstr(b, a, c)
+				cells[i] = c
+				if !a.Heap {
+					f.Locals = append(f.Locals, c)
+				}
+			}
+			for _, ia := range idx {
+				k, _ := constInt(ia.Index)
+				if k < 0 || k >= arr.Len() {
+					continue
+				}
+				repl[ia] = cells[k]
+				dead[ia] = true
+			}
+			for _, call := range lens {
+				repl[call] = ssa.NewConst(constant.MakeInt64(arr.Len()), call.Type())
+				dead[call] = true
+			}
+			for _, s := range slices {
+				dead[s] = true
+			}
+			dead[a] = true
+			n++
+		}
+	}
+	if n == 0 {
+		return 0
+	}
+	removeInstrs(f, dead)
+	for _, b := range f.Blocks {
+		for _, in := range b.Instrs {
+			for _, op := range in.Operands(nil) {
+				if *op != nil {
+					if r, ok := repl[*op]; ok {
+						*op = r
+					}
+				}
+			}
+		}
+	}
+	var locals []*ssa.Alloc
+	for _, l := range f.Locals {
+		if !dead[l] {
+			locals = append(locals, l)
+		}
+	}
+	f.Locals = locals
+	return n
+}
